@@ -709,7 +709,7 @@ def run_scenarios(scens, mode, ctx, workers=8):
             raise core.Broken("harness:crash", f"exit {rc}, {len(out)}/{len(ops)} answers: {err[-800:]}")
         mo = None
         if ctx["model_ok"]:
-            rc2, mo, err2 = core.run_lines(d, ["crash"], ops, timeout=300)
+            rc2, mo, err2 = core.run_lines(d, ["crash", mode], ops, timeout=300)
             if rc2 != 0 or len(mo) != len(ops):
                 raise core.Broken("model:crash", f"exit {rc2}: {err2[-800:]}")
         return out, mo
